@@ -359,8 +359,11 @@ impl<W, R, T> CompilationScope<'_, W, R, T> {
                             })
                             .transpose()?
                             .unwrap_or_default();
+                        let Some(return_pair) = sig_inners.next() else {
+                            return Ok(Arc::new(XType::Tuple(param_types)));
+                        };
                         let return_type = self.get_complete_type(
-                            sig_inners.next().unwrap(),
+                            return_pair,
                             generic_param_names,
                             interner,
                             tail_name,
@@ -757,7 +760,7 @@ impl<W, R, T> CompilationScope<'_, W, R, T> {
             }
             Rule::tuple => {
                 let mut iter = input.into_inner();
-                let parts = iter.next().map_or_else(
+                let mut parts: Vec<_> = iter.next().map_or_else(
                     || Ok(vec![]),
                     |c| {
                         c.into_inner()
@@ -765,6 +768,11 @@ impl<W, R, T> CompilationScope<'_, W, R, T> {
                             .collect()
                     },
                 )?;
+                let trailing_comma = iter.next().is_some();
+                if parts.len() == 1 && !trailing_comma {
+                    // a parenthesised expression
+                    return Ok(parts.pop().unwrap());
+                }
                 Ok(XStaticExpr::Tuple(parts))
             }
             Rule::turbofish_cname => {
